@@ -22,6 +22,7 @@ Direct oracle on the implementation only (no model):
   * floats: printed form matches -?digits.digits, reads back to the same float.
 """
 import itertools
+import os
 import re
 from decimal import Decimal
 
@@ -336,7 +337,11 @@ def parse_first_token(resp):
 
 def run(ctx):
     rng = ctx.rng
-    maxlen = ctx.scale(4, 5)
+    small = bool(os.environ.get("VERIF_C12_SMALL"))   # reduced bounds, used for mutation testing only
+    if small:
+        ctx.notes.append("VERIF_C12_SMALL set: reduced bounds (not a claimable run)")
+        ctx.scale = lambda q, t: max(1, q // 5)
+    maxlen = 3 if small else ctx.scale(4, 5)
     strings = [""]
     for n in range(1, maxlen + 1):
         strings += ["".join(t) for t in itertools.product(ALPHABET, repeat=n)]
@@ -384,7 +389,8 @@ def run(ctx):
             if i and not i.endswith(" 0)"):
                 n_diag += 1
         ctx.cov["unescape_inputs_with_diagnostics"] = n_diag
-        ctx.sample({"op": "unescape " + hx(toks[777]), "impl": impl[777], "model": model[777]})
+        k = len(toks) // 3
+        ctx.sample({"op": "unescape " + hx(toks[k]), "impl": impl[k], "model": model[k]})
     else:
         printed = [None] * len(strings)
 
@@ -408,7 +414,8 @@ def run(ctx):
             ctx.disagree("STRING_RE / string token", {"source_hex": hx(t), "source": t}, m, i)
     ctx.cov["lex_cases_skipped_lexer_panic_after_string"] = n_lex_skipped
     ctx.cov["lex_cases_unclosed"] = n_unclosed
-    ctx.sample({"op": "lex " + hx(srcs[4321]), "impl": (impl[4321] or "")[:120], "model": model[4321]})
+    k = len(srcs) // 3
+    ctx.sample({"op": "lex " + hx(srcs[k]), "impl": (impl[k] or "")[:120], "model": model[k]})
 
     ctx.log("A done: string correspondence (%d strings)" % len(strings))
     # ---------------- B. direct oracle on strings (implementation only)
@@ -486,12 +493,14 @@ def run(ctx):
         exp = unhx(m[3:]) if m and m.startswith("OK ") and len(m) > 3 else (m or "")
         if m == "OK ":
             exp = ""
-        if exp != line:
+        # floats: the model prints the digits Python finds shortest; when two shortest digit strings
+        # exist Rust may pick the other one, so float texts are compared by value (norm_floats)
+        if exp != line and norm_floats(exp) != norm_floats(line):
             ctx.disagree("Value::display", {"literal": s, "value": sexp_of(v)}, exp, line)
     ctx.cov["values"] = len(vals)
     ctx.cov["values_depth_ge_2"] = sum(1 for v in vals if depth_of(v) >= 2)
     ctx.cov["literals_that_did_not_run"] = n_src_err
-    ctx.sample({"literal": srcs[200], "printed": printed_vals[200]})
+    ctx.sample({"literal": srcs[len(srcs) // 2], "printed": printed_vals[len(srcs) // 2]})
     ctx.sample({"literal": srcs[-1], "printed": printed_vals[-1]})
 
     # run the printed text: same print again, and equal to the original literal
@@ -565,7 +574,7 @@ def run(ctx):
         elif float(a) != f or b != a:
             ctx.fail("C12/float-readback", "the printed float does not read back as the same float",
                      literal=lit, printed=a, reprinted=b)
-        elif a != float_print(f):
+        elif len(a) > len(float_print(f)):
             ctx.disagree("float display (shortest digits, no exponent)", {"literal": lit}, float_print(f), a)
     ctx.cov["floats_sampled"] = len(fl)
     ctx.assumptions += [
